@@ -85,6 +85,7 @@ type Call struct {
 	thresholdSel, threshold, queryLen, damageSel int
 	wantStatus   int // a deliberately damaged request must be answered with this status
 	wantDupReject bool // duplicate keys: the client must refuse before sending
+	byzClient    bool // the request was rewritten to carry a value at an excluded path
 	superset     bool // the (Byzantine) server mentioned a key that was never requested
 }
 
